@@ -464,6 +464,20 @@ func (fr *Frame) cutLoop(st *State, n node, l *loop) *State {
 		r.heapHavoc(hs, h)
 		rec.havocked = append(rec.havocked, h)
 	}
+	// heap closure at the loop head: every reference stored in an existing object refers to an existing object
+	// (true of real heaps at every point; restated here for the heap versions that were not havocked)
+	for _, h := range sortedKeys(r.heapInit) {
+		skip := false
+		for _, hv := range rec.havocked {
+			if hv == h {
+				skip = true
+			}
+		}
+		if skip {
+			continue
+		}
+		r.heapWF(r.heapGet(hs, h), r.heapSort[h], r.eng.heapElemType[h], hs.frontier)
+	}
 	for i, c := range invs {
 		f, err := fr.evalClause(hs, c, nil)
 		if err != nil {
